@@ -170,6 +170,14 @@ CHECKS = {
         "std::runtime_error; re-writing an existing name unlinks and re-creates the object (so the old value is replaced for any new shape).",
    note="Not decided: HDF5's behaviour, bit-identity of the transferred values, non-ASCII strings, the table-row (checkpointtable.h) path. "
         "xtp is parsed, not built; the overwrite defect was replayed with a stand-alone harness (replays/C17_overwrite.cc) and fixed."),
+ "C19": dict(cat="other", ref="DESIGN.md section 4 C19",
+   technique="Perl compiler op-tree (perl -MO=Concise, compile phase only) parsed into expression trees; every assignment folded to a symbolic value with its cond_expr/and/or guards and compared with the documented formula; array pass-through of readin_table/saveto_table arguments",
+   text="Decides the point-wise formulas of update_ibi_pot.pl (kT ln(g_cur/g_tgt) under both-positive guard, continuation with flag o, both "
+        "sweeps alike), dist_boltzmann_invert.pl (-kT ln(P/norm), norm table), table_linearop.pl, potential_shift.pl (shift value: last point "
+        "or minimum over flagged points with a defined()-test), table_smooth.pl (stencils, flag guard, unflagged points kept) and "
+        "table_integrate.pl (trapezoid recurrences from either end), and that each script writes the grid and flag arrays it read.",
+   note="Not decided: shell wrappers (csg_table, csg_call), table_combine/table_scale/table_extrapolate, csg_resample-based differentiation and "
+        "its inverse relation to integration (numerical), CsgFunctions.pm's parsing loops. No script is executed; perl only compiles them."),
 }
 NA = {
 }
